@@ -29,6 +29,16 @@ CLAIMS = {
    text="Every declared constant of every bound enum/flag family (about 1800 NT status rows, command and sub-command codes, flag words) is enumerated from the type-checked source: each must be a key of its name table / have a case, names must be non-empty, non-placeholder and unique, flag constants single distinct bits, each decomposer test must test one constant against itself and append that constant's name exactly once in a deterministic order, each predicate must depend on exactly its own bit, and every non-success NT status must map to a non-nil error whose text carries the numeric code. Exhaustive over table rows by construction, which is what the property quantifies over.",
    note=TRUST + " Additional for C19: fmt/sort/strings semantics trusted; constant values are not compared with the Microsoft specifications; what name functions yield for undeclared values is only required to differ from declared names.",
    design="§3 E3, §4 C19"),
+ "C05": dict(
+   technique="static analysis: byte-order discipline over every encoding/binary accessor call in the SMB1 packages, plus wire-layout rules (AndX block, per-dialect format byte, buffer-format table, declared-width) from go/ssa",
+   text="Byte order is invisible to round-trip checks, so it is decided structurally: each of the ~650 fixed-width accessor calls in network/smb/smb_v10 must be little-endian (Parameters' internal word packing is admitted only under a machine-checked transparency side condition), the AndX block layout must be command/reserved/offset in Marshal, Unmarshal and through the word packing, Dialects must emit and check the 0x02 format byte and terminator per dialect, the SMB_STRING buffer formats must be the five distinct codes with a case each, and every fixed-width command field must be as wide on the wire as its UCHAR/USHORT/ULONG type. Agreement with an independent MS-CIFS implementation is inferred from these, not tested.",
+   note=TRUST + " Additional for C05: encoding/binary accessors have their documented byte layouts; constant values and field semantics are not compared with the specification. Five big-endian sites (AndX offset ×3, SMB_FILE_ATTRIBUTES ×2) are recorded as known findings because existing unit tests pin their bytes.",
+   design="§4 C05"),
+ "C18": dict(
+   technique="static analysis: alias/retain summaries for receive buffers handed to goroutines, mask-satisfiability and sibling-dispatch tables over typed constants, def-use provenance of transaction ids, and lifecycle structure of serve loops on go/ssa",
+   text="Schedule-independent structural hazards are decided for every interleaving: a buffer refilled by a receive loop must not reach a goroutine, channel or retained state without being copied (alias and retains summaries over the call graph); every NBNS opcode classification uses one mask that contains all dispatched Op* constants and lies within the R+OPCODE bits, all dispatchers map each opcode to the same handler, and each handler reaches its own name-table operation; every response's transaction id derives from its request's on every path and the LLMNR client's delivery is a non-blocking send to the query registered under the decoded id; every serve loop tests its quit channel each iteration, Stop closes that channel and unblocks the blocking call, goroutines are WaitGroup-paired, and request goroutines store only to per-request state. Absence of all races/deadlocks under every schedule and promptness are NOT decided.",
+   note=TRUST + " Additional for C18: a table of standard-library alias/retention contracts; user-supplied LLMNR handlers (function values) are not followed; a quit mechanism that is not a channel would be reported.",
+   design="§4 C18"),
  "C07": dict(
    technique="static analysis: linear-fact prover over go/ssa discharging the Go compiler's residual bounds checks, plus panic-source, allocation, loop-ranking and recursion rules over the call graph from the decoder entry points",
    text="Every index/slice/fixed-width-accessor site, division, assertion, make() size, loop and call cycle reachable from the rule-selected decoder entry points is an obligation decided for all inputs at once: bounds sites are discharged either by the Go compiler's prove pass or by entailment from dominating conditions, non-wrapping definitions, loop invariants and callee summaries (Fourier-Motzkin over integers). This is the right level because the property quantifies over all byte strings and a missing guard is a structural fact of the code; it is not a 'proof' claim because some helper decoders without an error path remain as recorded known findings.",
